@@ -12,6 +12,9 @@ from . import scripted as S
 
 def templates():
     out = list(O.opt_templates())
+    import random as _r
+    # texts a format string / display layer could change, printed before and after the first read (a third of them per run)
+    out += [c for k, c in enumerate(G.output_text_cases(_r.Random(7))) if k % 3 == 0]
     out.append(("prefix-leaves-fraction", "형.. 형... 흡.... 흑.... 항..... 흑 항. 흑.... 항.", "x"))
     out.append(("prefix-leaves-negative-nan", "형..... 흣.... 흡..... 흑 항. 흑.... 항. 흑..... 항.", "y"))
     out.append(("last-preexec-has-area", "혀어어어엉.............♥ 흑❤ 항.", ""))
